@@ -150,6 +150,24 @@ class C05(Prop):
             "the same (input, history) is run under 3 configurations; non-trivial = at least one operation returned bytes; distinct by implementation output trace")
 
     # ------------------------------------------------------------------ inputs
+    def gen_edge_input(self, rng, ps):
+        """inputs built around the page size: line/terminator/separator runs that end exactly at, one before, one after a page edge"""
+        out = []
+        for _ in range(rng.randrange(1, 12)):
+            L = max(0, rng.choice([ps - 2, ps - 1, ps, ps + 1, 2 * ps - 1, 2 * ps, 3 * ps + 1, rng.randrange(0, 4 * ps + 2)]))
+            kind = rng.random()
+            if kind < 0.35: body = bytes(rng.choice(b"abcXYZ019") for _ in range(L))
+            elif kind < 0.55: body = bytes(rng.choice(b"ab ") for _ in range(L))
+            elif kind < 0.7: body = b" " * L
+            elif kind < 0.8: body = (b"tok" + b" " * L)[:max(L, 1)]
+            elif kind < 0.9: body = bytes(rng.choice(b"a\r") for _ in range(L))
+            else: body = bytes(rng.choice(b"a\x00 ") for _ in range(L))
+            t = rng.random()
+            out.append(body + (b"\r\n" if t < 0.5 else b"\n" if t < 0.85 else b"\r" if t < 0.9 else b"" if t < 0.93 else b"\n\n\r\n"))
+        s = b"".join(out)
+        if rng.random() < 0.3: s = s.rstrip(b"\r\n")
+        return s
+
     def gen_input(self, rng, big=False):
         r = rng.random()
         if r < 0.03: return b""
@@ -257,23 +275,57 @@ class C05(Prop):
         out.append(dict(self.mk("known-stable-realloc", b"abcd", "stream", 2, ["setstable o=0", "getline"]), known_key=K_STABLE))
         return out
 
+    def gen_wild(self, rng, src, nops):
+        """histories OUTSIDE the contract (rewinds without anchor, offsets at/after the end, anchors left of the window):
+        only model = implementation is checked on them (error statuses, fseeko path); they stay memory-safe"""
+        sp_cur = 0
+        ops = []
+        for _ in range(nops):
+            r = rng.random()
+            if r < 0.35: ops.append(rng.choice(["getline", "fetchline", "gettoken sep=20", "fetchtoken sep=2009", "read k=%d" % rng.randrange(0, 9), "get", "getoffset"]))
+            elif r < 0.7: ops.append("setoffset o=%d" % rng.choice([0, len(src), max(0, len(src) - 1), rng.randrange(0, len(src) + 1)]))
+            elif r < 0.85: ops.append(rng.choice(["setanchor", "setstable"]) + " o=0")
+            else: ops.append("raise o=%d" % rng.choice([0, rng.randrange(0, len(src) + 1)]))
+        return ops
+
     def cases(self, ctx):
         rng = ctx.rng
         quick = ctx.tier == "quick"
-        nin = 120 if quick else 2500
+        nin = 500 if quick else 8000
         out = []
+        self.stats = {"inputs": 0, "input_bytes_max": 0, "ops": {}, "modes": {}, "pages": {}, "wild_cases": 0, "edge_inputs": 0}
         for i in range(nin):
-            big = rng.random() < 0.05
-            src = self.gen_input(rng, big)
+            big = rng.random() < 0.04
             k = 3
-            cfgs = self.configs(rng, src, k, minps=64 if big else 1)
+            edge = (not big) and rng.random() < 0.35
+            if edge:
+                eps = rng.choice([1, 2, 3, 4, 5, 7, 8, 16])
+                src = self.gen_edge_input(rng, eps)
+                cfgs = [(rng.choice(MODES), eps)] + self.configs(rng, src, k - 1)
+                cfgs = [(("allfile" if (m == "mmap" and len(src) == 0) else m), ps) for m, ps in cfgs]
+                self.stats["edge_inputs"] += 1
+            else:
+                src = self.gen_input(rng, big)
+                cfgs = self.configs(rng, src, k, minps=64 if big else 1)
             minps = min(ps for _, ps in cfgs)
-            tokens = True
             nops = rng.choice([5, 20, 60, 200]) if not big else 200
-            ops = self.gen_history(rng, src, minps, nops, tokens=tokens, readmax=None, stable=(rng.random() < 0.15))
+            ops = self.gen_history(rng, src, minps, nops, tokens=True, readmax=None, stable=(rng.random() < 0.15))
+            self.stats["inputs"] += 1
+            self.stats["input_bytes_max"] = max(self.stats["input_bytes_max"], len(src))
+            for o in ops: self.stats["ops"][o.split()[0]] = self.stats["ops"].get(o.split()[0], 0) + len(cfgs)
             for j, (m, ps) in enumerate(cfgs):
+                self.stats["modes"][m] = self.stats["modes"].get(m, 0) + 1
+                self.stats["pages"][ps] = self.stats["pages"].get(ps, 0) + 1
                 out.append(self.mk("g%d.%s.%d" % (i, m, ps), src, m, ps, ops))
+            if getattr(self, "with_wild", False) and rng.random() < 0.06 and len(src) > 0:
+                m, ps = rng.choice(["stream", "file", "pipe", "string", "allfile"]), rng.choice(PAGES)
+                out.append(self.mk("wild%d.%s.%d" % (i, m, ps), src, m, ps, self.gen_wild(rng, src, rng.choice([5, 30])), nomonitor=True))
+                self.stats["wild_cases"] += 1
         return out
+
+    def extra_evidence(self, ctx):
+        st = getattr(self, "stats", None)
+        return {"input_distribution": st} if st else {}
 
     # ------------------------------------------------------------------ comparison / monitors
     def canonical(self, line):
@@ -283,9 +335,15 @@ class C05(Prop):
     def compare(self, ctx, case, impl_out, model_out):
         """model = implementation (exact), and — on the driver's side channel — the Lean specification `specStep` prescribes
         what the python oracle `Spec` prescribes, and every generated op is inside the Lean contract `Valid ps`"""
-        d = Prop.compare(self, ctx, case, impl_out, model_out)
-        if d is not None or case.get("nomonitor"): return d
         ops = case["ops"]
+        n = max(len(impl_out), len(model_out))
+        for i in range(n):
+            a = self.canonical(impl_out[i]) if i < len(impl_out) else "<missing>"
+            b = self.canonical(model_out[i]) if i < len(model_out) else "<missing>"
+            if a != b and 0 < i < len(ops) and ops[i] == "get" and a.split()[:1] == b.split()[:1] and a.split()[-1:] == b.split()[-1:]:
+                continue      # how much Get exposes is window policy, not the property (the monitor checks prefix + page guarantee)
+            if a != b: return (i, a, b)
+        if case.get("nomonitor"): return None
         kv = dict(x.split("=", 1) for x in ops[0].split()[1:] if "=" in x)
         sp = Spec(bytes.fromhex(kv["hex"]) if kv["hex"] != "-" else b"")
         for i, (op, l) in enumerate(zip(ops[1:], model_out[1:]), 1):
@@ -323,7 +381,8 @@ class C05(Prop):
             kf = None
             if "stale" in got:
                 return Failure("monitor", where + ": bytes behind a pointer handed out under a stable anchor changed")
-            if "moved" in got:
+            if "moved" in got and case.get("known_key") == K_STABLE:
+                # known finding: reported on its witness only; generated histories go on being checked for everything else
                 kf = kf or Failure("monitor", where + ": window reallocated while a stable anchor is in force", key=K_STABLE)
             if got["st"] != exp["st"]:
                 return Failure("monitor", where + ": status %s, specification says %s" % (got["st"], exp["st"]))
